@@ -3,6 +3,7 @@ import JSight.Model.Context
 import JSight.Model.Paste
 import JSight.Model.Bans
 import JSight.Model.Include
+import JSight.Model.IncludeBans
 import JSight.Props.C05_Parens
 /-!
 Line-protocol driver of the context-resolution and paste-expansion models.
@@ -60,6 +61,37 @@ def showPasteErr : PasteErr → String
   | .inPaste id => "err paste " ++ toString id
   | .fuel => "fault fuel"
 
+/-- files: <id>=DIR | <id>=<ftok>,<ftok>,…   ftok = ctx token | I<file> | I<file>!   (empty file: <id>=) -/
+def parseFS (files : List String) : Option FS :=
+  -- files: <id>=DIR | <id>=<ftok>,<ftok>,…   ftok = ctx token | I<file> | I<file>!   (empty file: <id>=)
+  let parseF (fid : Nat) (ts : List String) : Option (List FTok) :=
+    let rec go (i : Nat) : List String → Option (List FTok)
+      | [] => some []
+      | t :: r =>
+        if t.startsWith "I" then
+          let body := (t.drop 1).toString
+          let bad := body.endsWith "!"
+          let num := if bad then (body.dropEnd 1).toString else body
+          match num.toNat?, go (i + 1) r with
+          | some f, some rest => some (FTok.incl f (!bad) :: rest)
+          | _, _ => none
+        else match parseTok (fid * 1000 + i) t, go (i + 1) r with
+          | some (.dir d), some rest => some (FTok.dir d :: rest)
+          | some .close, some rest => some (FTok.close :: rest)
+          | _, _ => none
+    go 0 ts
+  files.filter (· != "") |>.foldr (fun f acc =>
+    match acc, f.splitOn "=" with
+    | some fs, [n, body] =>
+      match n.toNat? with
+      | none => none
+      | some fid =>
+        if body == "DIR" then some ((fid, FEntry.directory) :: fs)
+        else match parseF fid ((body.splitOn ",").filter (· != "")) with
+          | some ts => some ((fid, FEntry.file ts) :: fs)
+          | none => none
+    | _, _ => none) (some [])
+
 def handle (line : String) : String :=
   match line.splitOn " " with
   | "resolve" :: toks =>
@@ -97,37 +129,25 @@ def handle (line : String) : String :=
       | .error (.notAllowed id) => "err banned " ++ toString id
       | .error (.ctx e) => showCtxErr e
   | "project" :: root :: files =>
-    -- files: <id>=DIR | <id>=<ftok>,<ftok>,…   ftok = ctx token | I<file> | I<file>!   (empty file: <id>=)
-    let parseF (fid : Nat) (ts : List String) : Option (List FTok) :=
-      let rec go (i : Nat) : List String → Option (List FTok)
-        | [] => some []
-        | t :: r =>
-          if t.startsWith "I" then
-            let body := (t.drop 1).toString
-            let bad := body.endsWith "!"
-            let num := if bad then (body.dropEnd 1).toString else body
-            match num.toNat?, go (i + 1) r with
-            | some f, some rest => some (FTok.incl f (!bad) :: rest)
-            | _, _ => none
-          else match parseTok (fid * 1000 + i) t, go (i + 1) r with
-            | some (.dir d), some rest => some (FTok.dir d :: rest)
-            | some .close, some rest => some (FTok.close :: rest)
-            | _, _ => none
-      go 0 ts
-    let fsOpt : Option FS := files.filter (· != "") |>.foldr (fun f acc =>
-      match acc, f.splitOn "=" with
-      | some fs, [n, body] =>
-        match n.toNat? with
-        | none => none
-        | some fid =>
-          if body == "DIR" then some ((fid, FEntry.directory) :: fs)
-          else match parseF fid ((body.splitOn ",").filter (· != "")) with
-            | some ts => some ((fid, FEntry.file ts) :: fs)
-            | none => none
-      | _, _ => none) (some [])
+    let fsOpt := parseFS files
     match root.toNat?, fsOpt with
     | some r, some fs =>
       match scanProject fs r with
+      | .error (.inc (.badName f p)) => "err inc badname " ++ toString (f * 1000 + p)
+      | .error (.inc (.missing f p)) => "err inc missing " ++ toString (f * 1000 + p)
+      | .error (.inc (.isDirectory f p)) => "err inc dir " ++ toString (f * 1000 + p)
+      | .error (.inc (.recursion f p)) => "err inc recursion " ++ toString (f * 1000 + p)
+      | .error (.inc (.jsightInIncluded f p)) => "err inc jsight " ++ toString (f * 1000 + p)
+      | .error (.inc .fuel) => "fault fuel"
+      | .error (.ctx e) => showCtxErr e
+      | .ok (f, _) => "ok" ++ showForest f
+    | _, _ => "bad-arg"
+  | "projectb" :: bans :: root :: files =>
+    let banned : List Kind := ((bans.splitOn ",").filterMap (·.toNat?)).filterMap (Kind.all[·]?)
+    match root.toNat?, parseFS files with
+    | some r, some fs =>
+      match scanProjectB banned fs r with
+      | .error (.notAllowed f p) => "err banned " ++ toString (f * 1000 + p)
       | .error (.inc (.badName f p)) => "err inc badname " ++ toString (f * 1000 + p)
       | .error (.inc (.missing f p)) => "err inc missing " ++ toString (f * 1000 + p)
       | .error (.inc (.isDirectory f p)) => "err inc dir " ++ toString (f * 1000 + p)
